@@ -42,6 +42,9 @@ pub enum Act {
     StrayFromFinished(u8, IKind),
     /// client i, once finished, starts another transfer (a fresh download of its neighbour's kind) from the same endpoint
     Restart(u8),
+    /// client i, once finished, sends a late datagram (a duplicate of its last ACK, a stray DATA or ERROR) to the endpoint
+    /// that served its transfer (multi-port: the worker's former ephemeral port); whoever is served next must not see it
+    LateToOldEndpoint(u8, IKind),
 }
 
 #[derive(Clone, Debug, Serialize, Deserialize)]
@@ -349,6 +352,19 @@ fn run_case(dir: &Path, c: &Case) -> Result<Vec<&'static str>, (String, String)>
                     classes.push("second-transfer-from-same-endpoint");
                 }
             }
+            Act::LateToOldEndpoint(i, kind) => {
+                let idx = i as usize % k;
+                if cls[idx].done && !c.single {
+                    if let Some(p) = cls[idx].peer {
+                        std::thread::sleep(Duration::from_millis(5));
+                        cls[idx].sock.send(&ikind_bytes(&kind), p);
+                        // a duplicate of the final acknowledgement as well
+                        let last = ((cls[idx].next.max(1) - 1) % 65536) as u16;
+                        cls[idx].sock.send(&refcodec::ack(last), p);
+                        classes.push("late-datagram-to-former-transfer-endpoint");
+                    }
+                }
+            }
             Act::StrayFromFinished(i, kind) => {
                 let idx = i as usize % k;
                 if cls[idx].done && cls.iter().any(|c| !c.done) {
@@ -471,6 +487,7 @@ pub fn strategy() -> BoxedStrategy<Case> {
                 2 => ((0u8..k as u8), ikind()).prop_map(|(i, kd)| Act::IntrudeTransfer(i, kd)),
                 2 => ((0u8..k as u8), ikind()).prop_map(|(i, kd)| Act::StrayFromFinished(i, kd)),
                 2 => (0u8..k as u8).prop_map(Act::Restart),
+                2 => ((0u8..k as u8), ikind()).prop_map(|(i, kd)| Act::LateToOldEndpoint(i, kd)),
             ];
             (Just(single), proptest::collection::vec(spec(), k), proptest::collection::vec(act, 0..(6 * k)), Just(seed))
         })
@@ -739,7 +756,7 @@ fn exhaustive() -> Vec<Case> {
 }
 
 pub fn run(ctx: &Ctx) {
-    ctx.set_rule("K model clients (K=2..4 mostly, up to 16) with distinct files, mixed uploads/downloads, blksize in {default,8,100,1024,1428,4096}, windowsize 1..4, talk to one real tftpd (single or multi port). The harness is the only sender and is single-threaded, so the generated schedule (which client takes its next step - request or one window - and where foreign datagrams are injected) is the arrival order at the listening socket. Injections: ACK/DATA/ERROR/OACK from a foreign endpoint to the listening port and to a victim's transfer endpoint; stray packets from an endpoint whose transfer has finished. Exhaustive: all interleavings of the first 4 steps of 2 clients for 4 transfer pairs x both port modes. Oracle: every client ends with exactly its own bytes / every upload is stored exactly; single-port: every server datagram comes from the listening port; multi-port: each transfer from its own port, different from the listening port and from concurrent transfers; every well-formed non-request datagram sent to the listening port by an endpoint that owns no (or no longer a) transfer is answered with an ERROR; a foreign endpoint never receives a victim's file data. Part long-lived-transfer: one slow but conformant lock-step transfer (download or upload, both port modes; requested timeout 1 s answered after 450 ms per block, thorough also 2 s / 900 ms and the default timeout / 2 s) that lasts longer than six timeouts while after every block another client completes a short download or upload on the same server; the slow transfer must never see an ERROR or a stall and ends byte-identical, as do all short ones. Non-trivial = >=2 transfers overlapped in time or >=1 foreign/stray datagram was injected; distinct = distinct cases.");
+    ctx.set_rule("K model clients (K=2..4 mostly, up to 16) with distinct files, mixed uploads/downloads, blksize in {default,8,100,1024,1428,4096}, windowsize 1..4, talk to one real tftpd (single or multi port). The harness is the only sender and is single-threaded, so the generated schedule (which client takes its next step - request or one window - and where foreign datagrams are injected) is the arrival order at the listening socket. Injections: ACK/DATA/ERROR/OACK from a foreign endpoint to the listening port and to a victim's transfer endpoint; stray packets from an endpoint whose transfer has finished - to the listening port and, late, to the former transfer endpoint. Exhaustive: all interleavings of the first 4 steps of 2 clients for 4 transfer pairs x both port modes. Oracle: every client ends with exactly its own bytes / every upload is stored exactly; single-port: every server datagram comes from the listening port; multi-port: each transfer from its own port, different from the listening port and from concurrent transfers; every well-formed non-request datagram sent to the listening port by an endpoint that owns no (or no longer a) transfer is answered with an ERROR; a foreign endpoint never receives a victim's file data. Part long-lived-transfer: one slow but conformant lock-step transfer (download or upload, both port modes; requested timeout 1 s answered after 450 ms per block, thorough also 2 s / 900 ms and the default timeout / 2 s) that lasts longer than six timeouts while after every block another client completes a short download or upload on the same server; the slow transfer must never see an ERROR or a stall and ends byte-identical, as do all short ones. Non-trivial = >=2 transfers overlapped in time or >=1 foreign/stray datagram was injected; distinct = distinct cases.");
     ctx.assume("interleaving granularity is one request or one window per client step; the gap between bind and connect of a multi-port socket cannot be scheduled from outside");
     let dirs = DirPool::new(ctx, "c12");
     let cases = exhaustive();
